@@ -95,10 +95,17 @@ def evaluate(ctx, label=""):
                            "no offending call, but the backend was not closed exactly once at the end"))
                 viol = _classify(c, bad)
                 what = viol + ": " + what
-                key = "c20-%s-%s" % (viol, scen.split(":")[0])
+                # the key names the violated clause, the scenario and -- for opens of altered images -- whether the image
+                # was cleanly closed: the recorded findings are about UNCLEAN images (repair walks pages without checking
+                # them against the file length) and about files shorter than the 320-byte header; the same contract
+                # breach on a cleanly closed image of full header length is a different defect and is reported
+                key = "c20-%s-%s" % (viol, scen)
+                nl = re.search(r'"new_len":(\d+)', m)
+                if scen.startswith("open-bad-length") and nl and int(nl.group(1)) < 320:
+                    key = "c20-%s-open-bad-length:short-header" % viol
                 # F-C20-1 (known finding) is only: a read past len() during a FAILING open of a file that was
                 # made shorter.  The same read in an open that succeeds gets its own key.
-                if key == "c20-read-beyond-len-open-bad-length" and '"outcome":"ok"' in m:
+                if key.startswith("c20-read-beyond-len-open-bad-length") and '"outcome":"ok"' in m:
                     key += "-but-opened"
                 # F-C20-2 (known finding) is only: a read by ANOTHER thread that began after close() returned
                 if viol == "call-after-close" and '"first_call_after_close_by_closing_thread":true' in m:
